@@ -1,4 +1,4 @@
 #!/bin/bash
 # usage: lib/confirm_batch.sh <logfile> <name> ...   (appends "<name>: RESULT ..." lines)
 ROOT=$(cd "$(dirname "$0")/.." && pwd); LOG=$1; shift
-for n in "$@"; do echo "$n: $("$ROOT/lib/confirm_mutant.sh" "$ROOT/seeded_pending/$n" mocks,verif-hooks 2>&1 | tail -1)" >> "$LOG"; done
+for n in "$@"; do echo "$n: $("$ROOT/lib/confirm_mutant.sh" "$ROOT/seeded_pending/$n" "${FEAT:-mocks,verif-hooks}" 2>&1 | tail -1)" >> "$LOG"; done
